@@ -10,6 +10,8 @@ import (
 	"net/netip"
 	"net/url"
 
+	"github.com/nuetzliches/hookaido/internal/queue"
+
 	vrt "github.com/nuetzliches/hookaido/internal/verifrt"
 )
 
@@ -366,7 +368,7 @@ func VerifC16Policy() {
 
 // ---- enforcement: no request unless the policy allowed it; every redirect hop re-checked ----
 
-// verif:harness props=C16 tier=quick weight=8
+// verif:harness props=C16,C06 tier=quick weight=8 tonly=C16
 // verif:bounds quick: 7 representative verdicts (allowed, https_only violation, deny hit, allow-list miss, rebind with an arbitrary resolved IPv4 address, resolver failure, private IP literal); thorough: the whole VerifC16Policy space (hosts without the empty one); (*http.Client).Do is a havoc stub returning any status or a transport error
 func VerifC16DeliverEnforces() {
 	c := hEnforcementCase()
@@ -390,8 +392,43 @@ func VerifC16DeliverEnforces() {
 		if !c.resolveFailed {
 			vrt.Assert("C16.deliver.denied-is-policy_denied", errors.Is(res.Err, ErrPolicyDenied))
 			vrt.Assert("C16.deliver.denied-is-not-retried", !shouldRetry(res) && !isSuccess(res))
+		} else if len(c.policy.Deny) == 0 && len(c.policy.Allow) == 0 {
+			// a name that could not be resolved is a transient network fault, not a verdict of the policy: it is retried
+			vrt.Assert("C06.deliver.resolver-failure-is-retried-not-policy_denied", !errors.Is(res.Err, ErrPolicyDenied) && shouldRetry(res))
 		}
 	}
+}
+
+// verif:harness props=C16,C06 tier=quick weight=10
+// verif:bounds a delivery whose first request is answered with a redirect to a hop the policy refuses (the 7 representative verdicts, thorough the whole policy space), 0 or 1 earlier hops: the client's refusal — the *url.Error net/http wraps around the CheckRedirect error — is handed back by the stubbed Do; classification with attempt and retry.max symbolic
+func VerifC16DeniedRedirectHopIsPolicyDenied() {
+	c := hEnforcementCase()
+	c.policy.Redirects = true
+	if c.allowed || c.resolveFailed || c.u.Host == "" {
+		return
+	}
+	client := &http.Client{}
+	first := EgressPolicy{Redirects: true}
+	d := NewHTTPDeliverer(client, first)
+	d.Policy = c.policy
+	d.Resolver = c.resolver
+	via := []*http.Request{{Method: "POST", URL: &url.URL{Scheme: "https", Host: "first.example.net", Path: "/a"}}}
+	hop := (&http.Request{Method: "POST", URL: c.u}).WithContext(context.Background())
+	refusal := client.CheckRedirect(hop, via)
+	vrt.Assert("C16.redirect-hop.refused", refusal != nil && errors.Is(refusal, ErrPolicyDenied))
+	if refusal == nil {
+		return
+	}
+	// what (*http.Client).Do returns when CheckRedirect refuses (net/http: "a non-nil error ... wrapped in a url.Error")
+	vrt.HTTPDoError(&url.Error{Op: "Post", URL: c.u.String(), Err: refusal})
+	d.Policy = first // the first URL itself is fine
+	res := d.Deliver(context.Background(), Delivery{URL: "https://first.example.net/a", Body: []byte("x"), Header: http.Header{}})
+	vrt.Assert("C16.redirect-hop.delivery-result-is-a-policy-denial", errors.Is(res.Err, ErrPolicyDenied) && !shouldRetry(res) && !isSuccess(res))
+	pd := &PushDispatcher{Store: &hStore{}, Deliverer: &hDeliverer{res: res}}
+	attempt, max := vrt.Int("attempt"), vrt.Int("retry_max")
+	vrt.Assume(attempt >= 1 && max >= 1)
+	act := pd.classifyDelivery(nil, queue.Envelope{ID: "e1", Route: "/r", Target: "https://first.example.net/a", Attempt: attempt, LeaseID: "L"}, TargetConfig{URL: "https://first.example.net/a", Retry: RetryConfig{Max: max}})
+	vrt.Assert("C16.redirect-hop.dead-lettered-as-policy_denied-without-retry", act.kind == leaseActionMarkDead && act.reason == "policy_denied")
 }
 
 // verif:harness props=C16,C06 tier=quick native=yes weight=10
